@@ -1330,12 +1330,13 @@ func (g *mapGrid) cellOf(loc camtypes.Location) (c mapCell, ok bool) {
 // the cell.
 func bestByLocation(res *SearchResult, locm map[blob.Ref]camtypes.Location, limit int) {
 	// Calculate res.LocationArea.
-	if len(res.Blobs) <= limit {
+	if limit <= 0 || len(res.Blobs) <= limit {
 		return
 	}
 
 	if res.LocationArea == nil {
 		// No even one result node with a location was found.
+		res.Blobs = res.Blobs[:limit]
 		return
 	}
 
@@ -1369,7 +1370,7 @@ func bestByLocation(res *SearchResult, locm map[blob.Ref]camtypes.Location, limi
 	}
 
 	var nodesKept []*SearchResultBlob
-	for {
+	for len(cellOccupants) > 0 {
 		for cellKey, occupants := range cellOccupants {
 			nodesKept = append(nodesKept, resBlob[occupants[0]])
 			if len(nodesKept) == limit {
@@ -1382,8 +1383,9 @@ func bestByLocation(res *SearchResult, locm map[blob.Ref]camtypes.Location, limi
 				cellOccupants[cellKey] = occupants[1:]
 			}
 		}
-
 	}
+	// Fewer results with a location than limit: they are all kept.
+	res.Blobs = nodesKept
 }
 
 // setResultContinue sets res.Continue if q is suitable for having a continue token.
